@@ -118,6 +118,8 @@ def matrix(kind, tier, seed):
                     M.append(_c("PaVeBaGP", "VVD2a", order=o, eps=e, type="IH", script=dict(kind="rect", G=4), max_steps=25))
                 if k < 8:
                     M.append(_c("EpsilonPAL", "VVD2a" if k % 2 else "VVD3a", eps=e, script=dict(kind="rect", G=4 if k % 2 else 3), max_steps=25))
+                if k < 12:     # eps-PAL with a non-empty P and several candidates per round: chains "a member of P covers A, only A covers B"
+                    M.append(_c("EpsilonPAL", "VVD2c" if k % 3 == 0 else "VVD2b", eps=e, batch=1 + k % 2, script=dict(kind="rect", G=5), max_steps=30))
             M.append(_c("PaVeBaGP", "VVD2a", order=("Wint", WI["obtuse"]), eps=1.0, type="DE", script=dict(kind="ell", G=4), max_steps=12))
             M.append(_c("PaVeBaGP", "VVD2a", order=("Wint", WI["acute"]), eps=0.5, type="DE", script=dict(kind="ell", G=4), max_steps=12))
             M.append(_c("PaVeBaPartialGP", "VVD2a", order=("Wint", WI["obtuse"]), eps=1.0, confidence_type="hyperellipsoid", script=dict(kind="ell", G=4), max_steps=10))
@@ -205,6 +207,9 @@ def matrix(kind, tier, seed):
             if k < 8:
                 M.append(_c("VOGP", "VVD2a", order=o, eps=e, batch=b, script=dict(kind="rect", G=4), max_steps=20))
                 M.append(_c("EpsilonPAL", "VVD2a", eps=e, batch=b, script=dict(kind="rect", G=4), max_steps=20))
+            if k < 4:      # near-twin inputs: the diagonal read for a point is the diagonal of ITS design's region
+                M.append(_c("VOGP", "VVD2near", order=o, eps=e, batch=b, script=dict(kind="rect", G=4), max_steps=20))
+                M.append(_c("EpsilonPAL", "VVD2near", eps=e, batch=b, script=dict(kind="rect", G=4), max_steps=20))
     if kind == "pess":
         # C11, last sentence: the pessimistic Pareto sets of VOGP / EpsilonPAL on scripted lattice posteriors with twins (exact ties)
         WI = {"orth": [[1, 0], [0, 1]], "acute": [[2, -1], [-1, 2]], "obtuse": [[2, 1], [1, 2]]}
